@@ -769,11 +769,17 @@ impl InstrFormat for StdHooks06 {
         Ok(ReadInstr::Instr(RawInstr { time, opcode: opcode as _, param_mask: 0, args_blob, ..RawInstr::DEFAULTS }))
     }
 
-    fn write_instr(&self, f: &mut BinWriter, _: &dyn Emitter, instr: &RawInstr) -> WriteResult {
+    fn write_instr(&self, f: &mut BinWriter, emitter: &dyn Emitter, instr: &RawInstr) -> WriteResult {
+        if instr.args_blob.len() != 12 {
+            // (possible through a user-supplied signature)
+            return Err(emitter.as_sized().emit(error!(
+                "instruction {} has {} bytes of arguments, but this format requires exactly 12",
+                instr.opcode, instr.args_blob.len(),
+            )));
+        }
         f.write_i32(instr.time)?;
         f.write_u16(instr.opcode)?;
         f.write_u16(12)?;  // this version writes argsize rather than instr size
-        assert_eq!(instr.args_blob.len(), 12);
         f.write_all(&instr.args_blob)?;
         Ok(())
     }
